@@ -539,8 +539,13 @@ fn body_graph(ch: &Ch) -> Run {
 /// whatever order the map hands the versions out in.
 fn body_prerelease(ch: &Ch) -> Run {
   let mut run = Run::default();
-  const VS: [&str; 4] = ["1.0.0-beta.1", "1.0.0-beta.2", "1.0.0-beta.10", "1.0.0"];
+  const VS_PRE: [&str; 4] = ["1.0.0-beta.1", "1.0.0-beta.2", "1.0.0-beta.10", "1.0.0"];
+  // versions that differ only in build metadata are equal in precedence
+  const VS_BUILD: [&str; 4] = ["1.0.0+a", "1.0.0+b", "1.0.0-rc.1+x", "0.9.0"];
   const RQ: [&str; 5] = ["^1.0.0-beta.1", "1.0.0-beta.2", "*", ">=1.0.0-beta.2 <1.0.0", "^1"];
+  let with_build_metadata = ch.flag("versions_with_build_metadata");
+  #[allow(non_snake_case)]
+  let VS = if with_build_metadata { VS_BUILD } else { VS_PRE };
   let versions: Vec<Version> = VS.iter().map(|v| Version::parse_standard(v).unwrap()).collect();
   let registry: Vec<(Version, VState)> = versions
     .iter()
@@ -566,9 +571,21 @@ fn body_prerelease(ch: &Ch) -> Run {
     }
   }
   let info = JsrPackageInfo { versions: map, latest: None };
+  // the same registry with the map iterating in ascending order
+  let mut canon_wanted: Vec<Version> = wanted.clone();
+  canon_wanted.sort_by(|a, b| a.cmp(b).then(a.to_string().cmp(&b.to_string())));
+  let mut canon_map: HashMap<Version, JsrPackageInfoVersion>;
+  loop {
+    canon_map = present.iter().map(|(v, s)| (v.clone(), JsrPackageInfoVersion { created_at: None, yanked: s.yanked })).collect();
+    if canon_map.keys().zip(canon_wanted.iter()).all(|(a, b)| a == b) {
+      break;
+    }
+  }
+  let canon_info = JsrPackageInfo { versions: canon_map, latest: None };
   let name = deno_semver::package::PackageName::from_str("@s/a");
   let resolver = JsrVersionResolver::default();
   let pr = resolver.get_for_package(&name, &info);
+  let pr_canon = resolver.get_for_package(&name, &canon_info);
   let none: HashSet<Version> = HashSet::new();
   let mut outcome = vec![];
   for r in RQ {
@@ -576,12 +593,27 @@ fn body_prerelease(ch: &Ch) -> Run {
     let want = reference(&registry, &req, &[], &none, false);
     let got = pr.resolve_version(&req, std::iter::empty(), &none);
     run.evals += 1;
+    // with build metadata several versions share the maximal precedence: any of them is "the highest"
     let ok = match (&got, &want) {
-      (Ok(g), Expected::Version(v, y, _)) => g.version.to_string() == *v && y.is_none_or(|y| y == g.is_yanked),
+      (Ok(g), Expected::Version(v, y, _)) => {
+        let wv = Version::parse_standard(v).unwrap();
+        (g.version.to_string() == *v || (with_build_metadata && g.version.cmp(&wv).is_eq())) && y.is_none_or(|y| y == g.is_yanked || with_build_metadata)
+      }
       (Err(_), Expected::NotFound { .. }) => true,
       _ => false,
     };
     outcome.push(format!("{want:?}"));
+    // ... but which one must not depend on the order the map hands them out in
+    let got_canon = pr_canon.resolve_version(&req, std::iter::empty(), &none);
+    let a = got.as_ref().map(|g| g.version.to_string()).map_err(|_| ());
+    let b = got_canon.as_ref().map(|g| g.version.to_string()).map_err(|_| ());
+    if a != b {
+      run.violate(
+        "selection-depends-on-version-map-order",
+        format!("resolve_version(@s/a@{r}) = {a:?} with the map iterating as {:?}, {b:?} with it iterating in ascending order", wanted.iter().map(|v| v.to_string()).collect::<Vec<_>>()),
+        json!({"registry": registry.iter().map(|(v, s)| format!("{v}: {}", if !s.present { "absent" } else if s.yanked { "yanked" } else { "live" })).collect::<Vec<_>>(), "requirement": r}),
+      );
+    }
     if !ok {
       run.violate(
         "wrong-selection@prerelease-order",
@@ -591,7 +623,7 @@ fn body_prerelease(ch: &Ch) -> Run {
       );
     }
   }
-  run.state_key = hash_of(&(format!("{registry:?}"), format!("{wanted:?}")));
+  run.state_key = hash_of(&(format!("{registry:?}"), format!("{wanted:?}"), with_build_metadata));
   run.nontrivial = present.len() >= 2;
   run.outcome_key = hash_of(&outcome);
   if ch.describe() {
